@@ -63,6 +63,9 @@ def ringDecr (len pos : Nat) : Nat := if pos = 0 then len - 1 else pos - 1
 /-- `C::checked_add` against the maximum of the counter type -/
 def checkedAddMax (cmax a b : Nat) : Option Nat := if a + b ≤ cmax then some (a + b) else none
 
+/-- `usize::is_power_of_two` -/
+def isPow2 (n : Nat) : Bool := n != 0 && 2 ^ Nat.log2 n == n
+
 /-- `a.iter().zip(b.iter()).map(|x| f(x.0, x.1).unwrap()).collect()`: `none` = one of the `unwrap`s panics -/
 def zipWithM {α β γ : Type} (f : α → β → Option γ) : List α → List β → Option (List γ)
   | a :: xs, b :: ys =>
